@@ -137,8 +137,10 @@ def run_unit(unit, drv, res, seed, tier):
             if is_crash(o):
                 res.violation(o[0], 'host function ' + name, crash_sig(o), c, observed=list(o))
                 continue
-            log = norm_log(r.get("log"))
-            if same_outcome(exp, o) and log == norm_log(elog):
+            # only what the host function itself saw is judged here (evaluation order is C07's subject)
+            log = [x for x in norm_log(r.get("log")) if x and x[0] == name]
+            elog = [x for x in norm_log(elog) if x and x[0] == name]
+            if same_outcome(exp, o) and log == elog:
                 continue
             if nargs > arity and o[0] == 'err' and o[1] == 'arg_count' and not [x for x in log if x and x[0] == name]:
                 res.count("surplus-arguments:error-accepted")
@@ -148,7 +150,7 @@ def run_unit(unit, drv, res, seed, tier):
                               expected=fmt_outcome(exp), observed=fmt_outcome(o))
             else:
                 res.violation('log-mismatch', 'host function ' + name.split('_')[0][:2], 'arguments seen by the function differ', c,
-                              expected=norm_log(elog), observed=log)
+                              expected=elog, observed=log)
         res.sample({"src": cases[len(cases) // 2]["src"], "vars": cases[len(cases) // 2].get("vars")}, cap=1)
     else:
         cases, meta = [], []
